@@ -188,6 +188,15 @@ func (d *Driver) keyInputs(entry string, ca *testsupport.CA, withCert bool) ([]i
 		out = append(out, input{id: entry + "/cert/" + v.id, class: "cert-unusable", data: data})
 	}
 
+	// certificates listed more than once (a full chain plus a CA bundle): the root twice, the leaf twice
+	if chain, err := chainFor("p256-a"); err == nil {
+		twiceRoot := append(append(bytes.Clone(d.fix["p256-a"]), chain...), caOnly...)
+		out = append(out, input{id: entry + "/cert/root-listed-twice", class: "cert-duplicates", data: twiceRoot})
+
+		twiceAll := append(append(bytes.Clone(d.fix["p256-a"]), chain...), chain...)
+		out = append(out, input{id: entry + "/cert/chain-listed-twice", class: "cert-duplicates", data: twiceAll})
+	}
+
 	garbage := base64ish(d.fix["p256-a"])
 
 	out = append(out,
